@@ -81,6 +81,8 @@ func ruleC09(r *Report) {
 	safely(r, func() { checkErrDrop(r, a, sc, sortedFns(p, sc.Consume), "C09.errdrop") })
 	r.Rule("C09.no-wait", "the library's own code on the consuming paths never waits: no sleep, timer, ticker, channel operation, select or WaitGroup/Cond wait (a wait whose length the peer can choose is a hang)", 1)
 	safely(r, func() { checkNoWaiting(r, p, sortedFns(p, sc.Consume), "C09.no-wait") })
+	r.Rule("C09.dense", "a slice of pointers or interfaces sized up front with make and filled by index on the consuming paths has every element stored: no iteration of the filling loop reaches the next one without passing through the indexed store (a skipped iteration leaves a nil element that consumers dereference)", 1)
+	safely(r, func() { checkDenseFill(r, p, sortedFns(p, sc.Consume), "C09.dense") })
 }
 
 func ruleC11(r *Report) {
